@@ -148,7 +148,10 @@ func (r *Reconciler) commitChange(ctx context.Context, transaction *configapi.Tr
 		}
 
 		if configuration.Committed.Target != transaction.ID.Index {
-			if configuration.Committed.Index != configuration.Committed.Target {
+			// A change commit is in flight while the target is ahead of the index. After a completed rollback
+			// the target stays behind the index for good; that case is decided by the prior transaction's
+			// rollback status below.
+			if configuration.Committed.Index < configuration.Committed.Target {
 				return controller.Result{}, false, nil
 			}
 
@@ -562,7 +565,10 @@ func (r *Reconciler) commitRollback(ctx context.Context, transaction *configapi.
 		}
 
 		if configuration.Committed.Target == transaction.ID.Index {
-			if configuration.Committed.Index != configuration.Committed.Target {
+			// A change commit is in flight while the target is ahead of the index. After a completed rollback
+			// the target stays behind the index for good; that case is decided by the prior transaction's
+			// rollback status below.
+			if configuration.Committed.Index < configuration.Committed.Target {
 				return controller.Result{}, false, nil
 			}
 
